@@ -743,7 +743,9 @@ class Runner:
                 state["done"] = True
                 try:
                     store = web.open_store_from_path(runner.world.fs_path(coll), double_check_indexes=False, index_threshold=runner.cfg.get("index_threshold"))
-                    store.import_one(name, st["ctype"], [other])
+                    ret = store.import_one(name, st["ctype"], [other])
+                    if ret[1] == cur.strip('"'):
+                        state["exc"] = "the competing write stored the bytes that were already there (same ETag)"
                 except Exception as e:  # the competing write itself failed: the step proves nothing
                     state["exc"] = repr(e)
             return res
